@@ -127,6 +127,25 @@ class Off(V):
         return ('off', self.name)
 
 
+class OffC(Off):
+    """%offset(K) with K an integer CONSTANT (an absolute address): K minus the offset of the containing item; as a bare name in
+    the target slot of a jump / branch it sends control to the absolute address K.  Accepted by the implementation (%offset is
+    looked up in constants and labels alike, and a bare name in a target slot is wrapped in %offset), documented only for
+    labels; C05 already used it for call / tail to ROM-style absolute addresses.  The value depends on where the item ends up,
+    so it is layout-dependent exactly like a label value (label_dep) although no label is involved."""
+    label_dep = True
+    const_dep = True
+
+    def eval(self, ctx):
+        return ctx.consts[self.name] - ctx.pos
+
+    def labels(self):
+        return set()
+
+    def key(self):
+        return ('offc', self.name)
+
+
 class Pos(V):
     """%position(L, base)."""
     label_dep = True
